@@ -1,7 +1,43 @@
-// ---- spec/scrypt.rs : RFC 7914 scrypt as a spec function (placeholder: refined in unit U4) ----
-pub uninterp spec fn spec_scrypt(pw: Seq<u8>, salt: Seq<u8>, n: nat, r: nat, p: nat, dk_len: nat) -> Seq<u8>;
-/// the parameter domain of RFC 7914 as the implementation asserts it (N power of two > 1, r,p >= 1, memory limits)
-pub open spec fn scrypt_params_ok(n: int, r: int, p: int, dk_len: int) -> bool {
-    n > 1 && r >= 1 && p >= 1 && dk_len >= 1 && dk_len <= 0xffff_ffff * 32
-    && r * p < 0x4000_0000 && n * r * 128 <= 0xffff_ffff_ffff && p * r * 128 <= 0xffff_ffff_ffff
+// ---- spec/scrypt.rs : RFC 7914 scrypt as spec functions ----
+/// ROMix (RFC 7914 section 5) on one 128*r-byte block with cost N.  Uninterpreted at the Verus level: the real
+/// `smix` is tied to the RFC's ROMix / BlockMix / Salsa20/8 by the Kani harnesses (salsa: complete; the rest bounded).
+pub uninterp spec fn spec_ro_mix(block: Seq<u8>, n: nat, r: nat) -> Seq<u8>;
+pub mod scrypt_axioms {
+use vstd::prelude::*;
+use super::*;
+pub broadcast proof fn axiom_ro_mix_len(block: Seq<u8>, n: nat, r: nat)
+    ensures #[trigger] spec_ro_mix(block, n, r).len() == block.len()
+{ admit(); }
+}
+pub use scrypt_axioms::axiom_ro_mix_len;
+
+/// B with each of its first `k` 128*r-byte blocks replaced by ROMix of it (RFC 7914 section 6, step 2)
+pub open spec fn mix_blocks(b: Seq<u8>, n: nat, r: nat, k: nat) -> Seq<u8>
+    decreases k
+{
+    if k == 0 { b } else {
+        let prev = mix_blocks(b, n, r, (k - 1) as nat);
+        let lo = (k - 1) * 128 * r;
+        prev.subrange(0, lo as int) + spec_ro_mix(b.subrange(lo as int, lo + 128 * r), n, r) + prev.subrange(lo + 128 * r, prev.len() as int)
+    }
+}
+/// scrypt(P, S, N, r, p, dkLen) = PBKDF2(P, ROMix-ed PBKDF2(P, S, 1, p*128*r), 1, dkLen)   (RFC 7914 section 6)
+pub open spec fn spec_scrypt(pw: Seq<u8>, salt: Seq<u8>, n: nat, r: nat, p: nat, dk_len: nat) -> Seq<u8> {
+    let b = spec_pbkdf2(pw, salt, 1, p * 128 * r);
+    spec_pbkdf2(pw, mix_blocks(b, n, r, p), 1, dk_len)
+}
+/// `n` is a power of two: what `assert!(n & (n - 1) == 0)` checks
+pub open spec fn is_pow2(n: usize) -> bool { n > 0 && n & ((n - 1) as usize) == 0 }
+/// the parameter domain of RFC 7914 exactly as the implementation asserts it (N a power of two > 1, r, p >= 1,
+/// memory limits), plus the PBKDF2 output limits of orion
+pub open spec fn scrypt_params_ok(n: usize, r: usize, p: usize, dk_len: usize) -> bool {
+    n > 1 && is_pow2(n) && r >= 1 && p >= 1 && dk_len >= 1 && dk_len <= 0xffff_ffff * 32
+    && r * p < 0x4000_0000 && r <= usize::MAX / 128 / p && r <= usize::MAX / 256 && n <= usize::MAX / 128 / r
+    && p * 128 * r <= 0xffff_ffff * 32
+}
+pub open spec fn blk(s: Seq<u8>, k: int, r: int) -> Seq<u8> { s.subrange(k * 128 * r, k * 128 * r + 128 * r) }
+pub proof fn lemma_kestrel_scrypt_params()
+    ensures scrypt_params_ok(32768, 8, 1, 32)
+{
+    assert(32768usize & 32767usize == 0) by (bit_vector);
 }
